@@ -190,6 +190,79 @@ impl TypeInfo for NamedPrim {
     }
 }
 
+/// A bit sequence described by hand with the user's own order marker (no bitvec needed).
+pub mod order {
+    use super::*;
+    /// stand-in for bitvec's `Lsb0`, declared by the user
+    pub struct Lsb0;
+    impl TypeInfo for Lsb0 {
+        type Identity = Self;
+        fn type_info() -> Type {
+            Type::builder().path(Path::new("Lsb0", "verif::hand::order")).composite(Fields::unit())
+        }
+    }
+    pub struct Msb0;
+    impl TypeInfo for Msb0 {
+        type Identity = Self;
+        fn type_info() -> Type {
+            Type::builder().path(Path::new("Msb0", "verif::hand::order")).composite(Fields::unit())
+        }
+    }
+}
+pub struct HandBits;
+impl TypeInfo for HandBits {
+    type Identity = Self;
+    fn type_info() -> Type {
+        bump("HandBits");
+        scale_info::TypeDefBitSequence::new::<u16, order::Lsb0>().into()
+    }
+}
+pub struct HandBitsMsb;
+impl TypeInfo for HandBitsMsb {
+    type Identity = Self;
+    fn type_info() -> Type {
+        bump("HandBitsMsb");
+        scale_info::TypeDefBitSequence::new::<u16, order::Msb0>().into()
+    }
+}
+
+/// Two different types with the same name, declared in sibling block scopes (their `type_name` is identical).
+pub trait Scoped {
+    type Ty: TypeInfo + 'static;
+}
+pub struct ScopeA;
+pub struct ScopeB;
+const _: () = {
+    {
+        pub struct Local(u8);
+        impl TypeInfo for Local {
+            type Identity = Self;
+            fn type_info() -> Type {
+                Type::builder().path(Path::new("Local", M)).composite(Fields::unnamed().field(|f| f.ty::<u8>().type_name("u8")))
+            }
+        }
+        impl Scoped for ScopeA {
+            type Ty = Local;
+        }
+    }
+    {
+        pub struct Local(u16, u16);
+        impl TypeInfo for Local {
+            type Identity = Self;
+            fn type_info() -> Type {
+                Type::builder()
+                    .path(Path::new("Local", M))
+                    .composite(Fields::unnamed().field(|f| f.ty::<u16>().type_name("u16")).field(|f| f.ty::<u16>().type_name("u16")))
+            }
+        }
+        impl Scoped for ScopeB {
+            type Ty = Local;
+        }
+    }
+};
+pub type LocalA = <ScopeA as Scoped>::Ty;
+pub type LocalB = <ScopeB as Scoped>::Ty;
+
 /// Same path and shape as `Shared` but a different Rust type: must never merge with it.
 pub struct SharedTwin;
 impl TypeInfo for SharedTwin {
